@@ -303,6 +303,68 @@ fn case_tx(ctx: &mut Ctx, t: &Transaction, signer: Option<[u8; 33]>, kind: &str)
         Some(Err(_)) => fails.push("decoder rejected the encoder's output".into()),
         None => {}
     }
+    // the signed bytes (hence hash_for_signature and the signature) must cover every field the
+    // model says they cover: an edit of such a field changes serialize_for_signature
+    {
+        let base = t.serialize_for_signature();
+        let mut edits: Vec<(&str, Transaction)> = vec![];
+        let mut e = t.clone();
+        e.timestamp = e.timestamp.wrapping_add(1);
+        edits.push(("timestamp", e));
+        let mut e = t.clone();
+        e.txs_replacements ^= 1;
+        edits.push(("txs_replacements", e));
+        let mut e = t.clone();
+        e.transaction_type = if t.transaction_type == TransactionType::Normal { TransactionType::Fee } else { TransactionType::Normal };
+        edits.push(("transaction_type", e));
+        let mut e = t.clone();
+        e.data.push(7);
+        edits.push(("data (appended byte)", e));
+        if !t.data.is_empty() {
+            let mut e = t.clone();
+            let k = e.data.len() - 1;
+            e.data[k] ^= 0x40;
+            edits.push(("data (last byte)", e));
+        }
+        for (which, is_from) in [("input", true), ("output", false)] {
+            let n = if is_from { t.from.len() } else { t.to.len() };
+            for idx in [0usize, n.saturating_sub(1)] {
+                if idx >= n {
+                    continue;
+                }
+                for field in 0..4 {
+                    let mut e = t.clone();
+                    let sl = if is_from { &mut e.from[idx] } else { &mut e.to[idx] };
+                    let name = match field {
+                        0 => {
+                            sl.public_key[32] ^= 1;
+                            "public key"
+                        }
+                        1 => {
+                            sl.amount ^= 1;
+                            "amount"
+                        }
+                        2 => {
+                            sl.slip_index ^= 1;
+                            "slip index"
+                        }
+                        _ => {
+                            sl.slip_type = if sl.slip_type == SLIP_TYPES[0] { SLIP_TYPES[1] } else { SLIP_TYPES[0] };
+                            "slip type"
+                        }
+                    };
+                    if e.serialize_for_signature() == base {
+                        fails.push(format!("the signed bytes do not cover the {} of {} {}", name, which, idx));
+                    }
+                }
+            }
+        }
+        for (name, e) in edits {
+            if e.serialize_for_signature() == base {
+                fails.push(format!("the signed bytes do not cover {}", name));
+            }
+        }
+    }
     ctx.summary.count("tx_kind", kind);
     ctx.summary.count("tx_type", &format!("{:?}", t.transaction_type));
     ctx.summary.count("tx_from", &format!("{}", bucket(t.from.len())));
